@@ -29,7 +29,7 @@ fn has_principal_error(soft: &serde_json::Value) -> bool {
 
 pub fn run(rep: &mut Report, thorough: bool) {
     crate::util::install_quiet_panic_hook();
-    rep.rule = "targets of 1..24 sentinel threads on zero-filled stacks, each a {pointer holder at the first / last / a random aligned slot above sp with value in {start-1,start,mid,end-1,end,end+1}, misaligned holder, holder below sp, thread spinning inside the principal mapping, thread whose instruction pointer is the first byte after it, nothing}; principal address in {anonymous r-x mapping, file-backed ELF group, hole, inaccessible reservation directly behind the ELF group, 0, MAX}; with and without crash context. Oracle: included <=> ip in [start,end) or an aligned word at/above sp in the checker-read stack in [start,end); records and contexts always present; soft error when required. distinct = hash(holders, principal choice, ctx); non-trivial = Ok dump with >= 1 sentinel judged".into();
+    rep.rule = "targets of 1..24 sentinel threads on zero-filled stacks, each a {pointer holder at the first / last / a random aligned slot above sp with value in {start-1,start,mid,end-1,end,end+1}, misaligned holder, holder below sp, thread spinning inside the principal mapping, thread whose instruction pointer is the first byte after it, nothing}; with and without stack sanitization; principal address in {anonymous r-x mapping, anonymous rw- mapping, file-backed ELF group, hole, inaccessible reservation directly behind the ELF group, 0, MAX}; with and without crash context. Oracle: included <=> ip in [start,end) or an aligned word at/above sp in the checker-read stack in [start,end); records and contexts always present; soft error when required. distinct = hash(holders, principal choice, ctx); non-trivial = Ok dump with >= 1 sentinel judged".into();
     let mut rng = Rng::new(rep.seed.wrapping_mul(202_021));
     let ntargets = if thorough { 4000 } else { 14 };
     for ti in 0..ntargets {
@@ -44,6 +44,9 @@ pub fn run(rep: &mut Report, thorough: bool) {
         // (rwx, so that the kernel keeps it a separate mapping instead of merging the two)
         let rx2 = b.anon(1, 0, 7, Fill::Zero);
         assert_eq!(b.spec.regions[rx2].addr, rxa + rxl);
+        // a principal candidate WITHOUT execute permission (heap-like data a crash handler may care about)
+        let nx = b.anon(2, 5, 6, Fill::Zero);
+        let (nxa, nxl) = (b.spec.regions[nx].addr, b.spec.regions[nx].len);
         let mut files = Vec::new();
         let espec = ElfSpec::random(&mut rng);
         scen::add_elf_file(&mut b, &mut rng, &dir, "libprincipal.so", espec, false, &mut files);
@@ -55,13 +58,14 @@ pub fn run(rep: &mut Report, thorough: bool) {
         let resv = b.anon(2, 0, 0, Fill::Keep);
         let resv_addr = b.spec.regions[resv].addr;
         let hole = rxa - 2 * PAGE;
-        let pchoice = if ti < 5 { ti as u64 } else if ti == 5 { 6 } else { rng.below(7) };
+        let pchoice = if ti < 5 { ti as u64 } else if ti == 5 { 6 } else if ti == 6 || ti == 7 { 7 } else { rng.below(8) };
         let (principal, range): (Option<u64>, Option<(u64, u64)>) = match pchoice {
             0 | 5 => (Some(rxa + rng.below(rxl)), Some((rxa, rxa + rxl))),
             1 => (Some(fa + rng.below(fl)), Some((fa, fa + fl))),
             2 => (Some(hole), None),
             3 => (Some(0), None),
             6 => (Some(resv_addr + rng.below(2 * PAGE)), None),
+            7 => (Some(nxa + rng.below(nxl)), Some((nxa, nxa + nxl))),
             _ => (Some(u64::MAX), None),
         };
         let (lo, hi) = range.unwrap_or(if pchoice == 6 { (fa, fa + fl) } else { (rxa, rxa + rxl) }); // pointers still aim at the r-x region when there is no mapping
@@ -137,6 +141,12 @@ pub fn run(rep: &mut Report, thorough: bool) {
             let mut o = DumpOpts::new(t.pid, t.pid);
             o.skip_unreferenced = true;
             o.principal = principal;
+            // sanitization is applied to what is WRITTEN; which stacks are kept is decided on the
+            // target's real stack contents
+            o.sanitize = (ti + with_ctx as u64) % 2 == 1;
+            if o.sanitize {
+                rep.count("dumps_with_sanitization_and_skipping", 1);
+            }
             let mut crash: Option<(i32, u64, u64)> = None; // tid, sp, ip
             if with_ctx {
                 // crash registers: the ip cycles through {the thread's own, first byte, last byte,
